@@ -9,6 +9,7 @@ from vlib.harness import V, derive_seed, run_shards, REPO
 from vlib.lib import call
 
 PROPERTY = 'C15'
+AMBIENT_PASS = True        # the same search once more under unusual ambient settings (vlib.run.AMBIENT_SETTINGS)
 RULE = ('non-tabulated running distances as bare numbers (every whole metre 20..12 000 in thorough / stride 5 in quick, then '
         'stride 7 (thorough) / 61 (quick) to 400 000 m, plus +-3 m around every tabulated distance and beyond both ends) and as '
         'road spellings N[.dd]K and N[.dd]M over the same range; x gender x ages {5, 9, 13, 14, 19.5, 35, 47.25, 50, 61.75, 72.5, 83.1, 90, 100, 104} x table years 2015 and '
@@ -18,6 +19,7 @@ RULE = ('non-tabulated running distances as bare numbers (every whole metre 20..
         'beyond either end: no exception, factor = the end row\'s factor, best finite and positive; non-trivial = a distance '
         'within 60 m of a tabulated one, inside the track->road seam (8 000-10 000 m) or beyond either end; distinct (year, '
         'gender, distance)')
+RULE = RULE + "; ages {5, 9, 13, 14, 19.5, 35 ... 104} wherever the tabulated neighbours have a factor; a tabulated distance in another spelling must come out at the rows of that distance (1e-9); a shorter-than-all distance at the shortest run's open best"
 ASSUMPTIONS = ['the distance a code denotes is computed by the check (N m, 1000 N m for K, 1609 N m for M), not taken from get_distance',
                '1e-4 (the tables\' resolution) absorbs the 1 609 m vs 1 609.344 m mile used by get_distance',
                'the factor of the bracketing tabulated rows is obtained through the public function (decided by C14)']
